@@ -38,9 +38,12 @@ def iter_rows(cases, mout):
 # ---- narrow classifiers for the listed findings -------------------------------------------
 # a failure is attributed to a finding only when the program text contains the construct the
 # finding is about AND the symptom is the one that construct produces.
-# no finding of C04 is open on the current tree: nothing is attributed, every failure is a VIOLATION
-PAT = {}
-SYMPTOM_OF = {}
+PAT = {
+    # a break/continue inside a (package ...) form; symptom: a scope stays behind / the chunk verifies
+    # only when the jump pops one more scope
+    "package-scope-uncounted": re.compile(r"\(package\s[^\n]*\((break|continue)\b"),
+}
+SYMPTOM_OF = {"package-scope-uncounted": "scope"}
 
 
 def shape_len(state):
@@ -173,7 +176,7 @@ def main(argv):
         first = [f for f in fl if f["kind"] in "DNO"][0]
         c.violation({"kind": "the interpreter is not at rest after a successful evaluation / stale value / one-by-one differs",
                      "program": prog, "observed": first["what"], "all_failures_of_this_program": [f["what"] for f in fl][:8],
-                     "replay": "fresh interpreter (NewZlisp+StandardSetup); EvalString(program); then env.VerifDepths() and EvalString(\"\")"})
+                     "replay": "fresh interpreter (NewZlisp+StandardSetup); EvalString(program); then env.VerifDepths() and EvalString(\"\"). A program that starts with '#api ctor=C pre=P loaders=L,..' is an API history: construct the interpreter (std = NewZlisp+StandardSetup, bare = NewZlisp, sandbox = NewZlispSandbox), bring it into state P (new | clear = Clear() | ran = after one EvalString | err = after a failed EvalString and Clear()), call the loaders in turn on the #piece texts, then Run() ONCE, Run() again on the idle interpreter, EvalString(\"\"). bin/check C04 --replay <this file> does exactly that."})
     if not prop_level:
         shown = 0
         for prog, fl in sorted(other, key=lambda x: len(x[0])):
